@@ -31,8 +31,9 @@ def judge_baseline(res, code, every, base, lazy):
             res.violation("c13:poll-gap:%s" % site, "%d iterations of %s started without a poll (poll_every=%d)" % (
                 st["max_gap"], site, every), case)
             return False
-        if st["polls"] > st["iterations"]:
-            res.violation("c13:over-polling:%s" % site, "%d polls for %d iterations" % (st["polls"], st["iterations"]), case)
+        if st["polls"] > st["iterations"] // every + st["instances"]:
+            res.violation("c13:over-polling:%s" % site, "%d polls for %d iterations in %d loop instances (poll_every=%d)" % (
+                st["polls"], st["iterations"], st["instances"], every), case)
             return False
     # a watchdog that never says stop must not change the result
     if base.get("class") != lazy.get("class") or json.dumps(base.get("layout"), sort_keys=True) != json.dumps(lazy.get("layout"), sort_keys=True) \
@@ -60,6 +61,11 @@ def judge_stop(res, code, every, k, T, r, seed):
         return
     if not stopped(r):
         res.violation("c13:stop-not-reported", "stopped at poll %d but the error list is %s" % (k, [e["kind"] for e in r.get("errors", [])][:5]), case)
+        return
+    if mon.get("polls_after_stop_same_instance", 0) > 0:
+        res.violation("c13:stop-answer-ignored:%s" % mon.get("stop_site"),
+                      "the loop instance that was told to stop (poll %d, site %s) polled %d more times" % (
+                          k, mon.get("stop_site"), mon["polls_after_stop_same_instance"]), case)
         return
     if mon["polls_after_stop"] > every + 1:
         res.violation("c13:late-stop", "%d further polls after the first 'stop' answer (poll_every=%d)" % (mon["polls_after_stop"], every), case)
